@@ -521,7 +521,7 @@ C18Type(Ctx &c, bool primary)
       if (!c.Mine()) continue;
       C18Approx<I>(c, n, a, true);
     }
-    for (double a : {5.0, 10.0, 50.0, 200.0, 1100.0}) {
+    for (double a : {4.0, 5.0, 6.0, 7.0, 8.0, 10.0, 50.0, 200.0, 1100.0}) {
       if (!c.Mine()) continue;
       C18Approx<I>(c, n, a, n <= 100);
     }
@@ -633,6 +633,46 @@ C19One(Ctx &c, const char *cls, Rng &r)
     for (auto &t3 : cth) t3.join();
     for (int t2 = 0; t2 < TC; ++t2) same(*twins[t2], "equal-parameters-constructed-while-other-threads-construct-other-skews");
   }
+  // a generator that has been sampled from (by this thread) is assigned other parameters afterwards
+  {
+    std::mt19937_64 g{seed ^ 0x5555};
+    for (int i = 0; i < 64; ++i) {
+      (void)more(g);
+      (void)less(g);
+      (void)skewed(g);
+    }
+  }
+  // a copy must not depend on its source any more: the source is assigned a table of the same size / destroyed
+  {
+    D<I> src{a};
+    D<I> cp{src};
+    const D<I> same_size = other(n, alpha + 0.37);
+    src = same_size;  // copy assignment of a table of the same size: overwritten in place
+    same(cp, "copy-constructed-then-source-reassigned");
+    auto *heap_src = new D<I>{a};
+    D<I> cp2{*heap_src};
+    D<I> cp3;
+    cp3 = *heap_src;
+    delete heap_src;
+    // (whatever the destroyed source owned is handed out again and overwritten)
+    std::vector<std::vector<double>> reuse;
+    for (int i = 0; i < 4; ++i) reuse.emplace_back(static_cast<size_t>(n), 0.5);
+    same(cp2, "copy-constructed-then-source-destroyed");
+    same(cp3, "copy-assigned-then-source-destroyed");
+  }
+  // another generator constructed (by copy) at the address of a destroyed one that this thread has sampled from
+  {
+    alignas(D<I>) unsigned char buf[sizeof(D<I>)];
+    auto *g1 = new (buf) D<I>{other(n_more, alpha + 0.21)};
+    {
+      std::mt19937_64 g{seed ^ 0x3333};
+      for (int i = 0; i < 64; ++i) (void)(*g1)(g);
+    }
+    g1->~D<I>();
+    auto *g2 = new (buf) D<I>{a};
+    same(*g2, "copy-constructed-at-the-address-of-a-destroyed-generator");
+    g2->~D<I>();
+  }
   // assignment over generators that had other parameters before (more bins, fewer bins, default), and twice in a row
   more = a;
   same(more, "copy-assigned-over-a-generator-with-more-bins");
@@ -702,7 +742,7 @@ C19One(Ctx &c, const char *cls, Rng &r)
   }
   c.res.Add("draws", len * (8 + T));
   c.res.Add("parameter_sets", 1);
-  c.res.Add("sequences_compared", 18 + T);
+  c.res.Add("sequences_compared", 22 + T);
   c.sigs.insert(Fmt("c19:%s<%s>:%s:threads=%d", cls, TypeName<I>(), n <= 100 ? "n<=100" : "n>100", T));
   if (c.res.samples.size() < 4) c.res.samples.push_back("\"" + JEsc(ps) + Fmt(" engine seed %" PRIu64 " length %zu threads %d", seed, len, T) + "\"");
 }
@@ -726,6 +766,15 @@ C19Reject(Ctx &c, const char *cls, Rng &r)
   }
   for (auto [mn, mx] : bad) {
     if (!(mx < mn)) continue;
+#if VERIF_ASAN
+    // The constructors compute max - min + 1 in IntType before they reject the pair; for pairs whose difference does
+    // not fit, the UBSan build would report that arithmetic although the construction is rejected as required.  The
+    // property is about the rejection (checked for these pairs by the plain build), not about that arithmetic.
+    {
+      const I128 diff = static_cast<I128>(mx) - static_cast<I128>(mn) + 1;
+      if (diff < static_cast<I128>(Lim::min()) || diff > static_cast<I128>(Lim::max()) || diff - 1 < static_cast<I128>(Lim::min())) continue;
+    }
+#endif
     for (double alpha : {0.0, 1.0}) {
       bool threw = false;
       try {
@@ -773,6 +822,53 @@ C19Type(Ctx &c)
 
 }  // namespace vf
 
+namespace vf
+{
+// The very first constructions of the process are made by several threads at the same instant (whatever the library
+// initialises lazily is initialised under contention); afterwards the same parameters are constructed again by one
+// thread and every CDF value must be identical, bit for bit.
+template <class I>
+void
+FirstConstructionRace(Ctx &c, const char *prop)
+{
+  constexpr int kT = 6;
+  const uint64_t ns[kT] = {1000, 150, 100000, 1001, 5000, 101};
+  const double alphas[kT] = {2.0, 0.5, 1.0, 3.0, 0.0, 1.5};
+  std::vector<double> app[kT], exa[kT];
+  std::atomic<int> gate{0};
+  std::vector<std::thread> th;
+  for (int t = 0; t < kT; ++t) {
+    th.emplace_back([&, t] {
+      while (gate.load(std::memory_order_acquire) == 0) {
+      }
+      ApproxZipfDistribution<I> a{0, static_cast<I>(ns[t] - 1), alphas[t]};
+      ZipfDistribution<I> e{0, static_cast<I>(std::min<uint64_t>(ns[t], 2000) - 1), alphas[t]};
+      for (uint64_t k = 0; k < std::min<uint64_t>(ns[t], 400); ++k) app[t].push_back(a.GetCDF(static_cast<I>(k)));
+      for (uint64_t k = 0; k < std::min<uint64_t>(ns[t], 400); ++k) exa[t].push_back(e.GetCDF(static_cast<I>(k)));
+    });
+  }
+  gate.store(1, std::memory_order_release);
+  for (auto &t : th) t.join();
+  for (int t = 0; t < kT; ++t) {
+    ApproxZipfDistribution<I> a{0, static_cast<I>(ns[t] - 1), alphas[t]};
+    ZipfDistribution<I> e{0, static_cast<I>(std::min<uint64_t>(ns[t], 2000) - 1), alphas[t]};
+    for (uint64_t k = 0; k < app[t].size(); ++k) {
+      if (app[t][k] != a.GetCDF(static_cast<I>(k)) || exa[t][k] != e.GetCDF(static_cast<I>(k))) {
+        const bool ap = app[t][k] != a.GetCDF(static_cast<I>(k));
+        Violate(prop, Fmt("%s:constructed-first-in-the-process-by-several-threads-at-once-differs", ap ? "ApproxZipf" : "Zipf"),
+                Fmt("%s<%s>(min=0,max=%" PRIu64 ",alpha=%g): GetCDF(%" PRIu64 ") was %.17g for the generator one of %d threads constructed as the first "
+                    "generators of the process, and is %.17g for an equal generator constructed afterwards",
+                    ap ? "ApproxZipf" : "Zipf", TypeName<I>(), ns[t] - 1, alphas[t], k, ap ? app[t][k] : exa[t][k], kT,
+                    ap ? a.GetCDF(static_cast<I>(k)) : e.GetCDF(static_cast<I>(k))));
+        break;
+      }
+    }
+  }
+  c.res.Add("first_construction_races", 1);
+  c.sigs.insert("first-construction-race");
+}
+}  // namespace vf
+
 int
 main(int argc, char **argv)
 {
@@ -785,6 +881,16 @@ main(int argc, char **argv)
   c.scale = a.U("scale", 1);
   const auto mode = a.S("mode", "c06");
   const auto t0 = NowNs();
+  if (mode == "c18" || mode == "c19") {
+    // (the integer type of the racing first constructions changes with the shard)
+    const char *prop = mode == "c18" ? "C18" : "C19";
+    switch (c.part % 4) {
+      case 0: FirstConstructionRace<uint64_t>(c, prop); break;
+      case 1: FirstConstructionRace<int32_t>(c, prop); break;
+      case 2: FirstConstructionRace<uint32_t>(c, prop); break;
+      default: FirstConstructionRace<int64_t>(c, prop); break;
+    }
+  }
   if (mode == "c06") {
     C06Type<uint32_t>(c);
     C06Type<uint64_t>(c);
